@@ -126,7 +126,10 @@ def fill_vs_flatten(ctx):
     W = H = 30
     paths, rules = [], []
     for i in range(n):
-        ops = scene.curvy_path(rng, W, H)
+        if i % 2:
+            ops = scene.curvy_path(rng, W, H)
+        else:   # every op order: curves first, directly after Close, after a second Close, repeated MoveTo
+            ops = pc.mixed_ops(rng, pt=lambda r: (r.randrange(-8, 4 * W + 8) / 4.0, r.randrange(-8, 4 * H + 8) / 4.0))
         paths.append(ops); rules.append(rng.randrange(2))
     fl = ["pflatten %d %d %s" % (i, FB(0.1), scene.path_tokens(ops, r)) for i, (ops, r) in enumerate(zip(paths, rules))]
     out, died = build.run_sharded(build.RQV, fl)
